@@ -341,3 +341,18 @@ def write_json(path, obj):
 
 def scratch_dir(prefix="liquer-verif-"):
     return tempfile.mkdtemp(prefix=prefix)
+
+
+def _pool_init():
+    silence()
+
+
+def pmap(func, items, procs=None, chunksize=None):
+    """parallel map over independent work items (fork pool; workers silence liquer's chatter)"""
+    import multiprocessing
+    items = list(items)
+    procs = procs or min(14, os.cpu_count() or 2)
+    if len(items) < 8 or procs <= 1 or os.environ.get("VERIF_SERIAL"):
+        return [func(x) for x in items]
+    with multiprocessing.get_context("fork").Pool(procs, initializer=_pool_init) as pool:
+        return pool.map(func, items, chunksize=chunksize or max(1, len(items) // (procs * 8)))
